@@ -208,6 +208,89 @@ fn run_case(dec: &str, class: &str, rng: &mut SmallRng) -> Vec<(String, Got)> {
                 out.push((format!("variant {i}"), sut::server_decode(&mut l.new_codec().unwrap(), &mut BytesMut::from(&wire[..]))));
             }
         }
+        "vmess-req-body" | "vmess-resp-body" => {
+            // a well-formed header, possibly well-formed chunks, then a chunk whose size field is right for its position
+            // (masked / sealed under the session's keys) but declares fewer bytes than its padding + tag need
+            let ck = rv::cmd_key(sut::UUID_A).unwrap();
+            for sec in [rv::SEC_AES128_GCM, rv::SEC_CHACHA20_POLY1305] {
+                for option in [0x01u8, 0x05, 0x09, 0x0d, 0x11, 0x15, 0x19, 0x1d] {
+                    if class == "ChunkShorterThanPadding" && option & rv::OPT_GLOBAL_PADDING == 0 {
+                        continue;
+                    }
+                    // an authenticated length counts the bytes BEFORE the tag: it cannot say "shorter than a tag"
+                    if class == "ChunkShorterThanTag" && option & rv::OPT_AUTH_LEN != 0 {
+                        continue;
+                    }
+                    for good_before in [0usize, 2] {
+                        for attempt in 0..6 {
+                            let cipher = if sec == rv::SEC_AES128_GCM { "aes-128-gcm" } else { "chacha20-poly1305" };
+                            let total = |padding: usize| -> usize {
+                                if class == "ChunkShorterThanTag" { [0usize, 1, 15][attempt % 3] } else if padding == 0 { 16 } else { 16 + (attempt * 7) % padding.max(1) }
+                            };
+                            if dec == "vmess-req-body" {
+                                let req = rv::VmessReq { iv: rng.random(), key: rng.random(), resp_auth: 9, option, security: sec, cmd: 1, addr: Addr::Domain(b"example.com".to_vec(), 443), header_padding: 0 };
+                                let aid = rv::auth_id(&ck, now as i64, rng.random(), false);
+                                let mut wire = rv::seal_request_header(&ck, &aid, &rng.random(), &req.plain_header());
+                                let mut body = rv::VmessBody::new(option, sec, req.key, req.iv, req.key, req.iv);
+                                for _ in 0..good_before {
+                                    body.chunk(b"good chunk", &mut wire);
+                                }
+                                let (bad, padding) = body.malformed_chunk(total, 200);
+                                if class == "ChunkShorterThanPadding" && padding == 0 {
+                                    continue;
+                                }
+                                wire.extend_from_slice(&bad);
+                                let l = sv::listener(&sut::vmess_server_cfg(&[sut::UUID_A])).unwrap();
+                                let mut codec = l.new_codec().unwrap();
+                                let mut buf = BytesMut::from(&wire[..]);
+                                // decode until the decoder stops releasing: the last outcome is the verdict on the bad chunk
+                                let mut last = sut::server_decode(&mut codec, &mut buf);
+                                for _ in 0..8 {
+                                    if !matches!(last, Got::Connect(..) | Got::Tcp(..)) {
+                                        break;
+                                    }
+                                    last = sut::server_decode(&mut codec, &mut buf);
+                                }
+                                out.push((format!("{cipher} option {option:#04x} after {good_before} good chunks, padding {padding}"), last));
+                            } else {
+                                // the client has sent its request; the answer carries the bad chunk
+                                let addr = Addr::Domain(b"example.com".to_vec(), 443);
+                                let mut client = cv::tcp_codec(&sut::vmess_client_cfg(cipher, sut::UUID_A), &addr.to_octo()).unwrap();
+                                let mut c2s = BytesMut::new();
+                                if tokio_util::codec::Encoder::encode(&mut client, BytesMut::from(&b"hello"[..]), &mut c2s).is_err() {
+                                    continue;
+                                }
+                                let Some((_, h, _)) = rv::open_request_header(&ck, &c2s) else { continue };
+                                let Some(req) = rv::VmessReq::parse(&h) else { continue };
+                                if req.option != option {
+                                    continue; // the real client chooses its own option mask
+                                }
+                                let (rk, ri) = rv::resp_keys(&req.key, &req.iv);
+                                let mut wire = rv::seal_response_header(&rk, &ri, req.resp_auth, req.option);
+                                let mut body = rv::VmessBody::new(req.option, req.security, rk, ri, req.key, req.iv);
+                                for _ in 0..good_before {
+                                    body.chunk(b"good chunk", &mut wire);
+                                }
+                                let (bad, padding) = body.malformed_chunk(total, 200);
+                                if class == "ChunkShorterThanPadding" && padding == 0 {
+                                    continue;
+                                }
+                                wire.extend_from_slice(&bad);
+                                let mut buf = BytesMut::from(&wire[..]);
+                                let mut last = sut::client_decode(&mut client, &mut buf);
+                                for _ in 0..8 {
+                                    if !matches!(last, Got::Tcp(..)) {
+                                        break;
+                                    }
+                                    last = sut::client_decode(&mut client, &mut buf);
+                                }
+                                out.push((format!("{cipher} option {option:#04x} after {good_before} good chunks, padding {padding}"), last));
+                            }
+                        }
+                    }
+                }
+            }
+        }
         "trojan-req" => {
             let l = sv::listener(&sut::trojan_server_cfg(sut::TROJAN_PW)).unwrap();
             let mut wire = rv::trojan_key(sut::TROJAN_PW).to_vec();
